@@ -11,5 +11,5 @@ trap 'git -C /repo checkout -- .' EXIT
 TV=$(mktemp -d); cp /verif/known_findings.json "$TV/"; trap 'git -C /repo checkout -- .; rm -rf "$TV"' EXIT
 for c in "$@"; do
   out=$(./run check $c --tier ${TIER:-quick} --verif "$TV" 2>&1); rc=$?
-  if [ $rc = 0 ]; then echo "$c MISSED"; else echo "$c DETECTED rc=$rc"; echo "$out" | grep -v '^VIOLATION\|^\[' | head -${LINES_SHOWN:-4}; fi
+  if [ $rc = 0 ]; then echo "$c MISSED"; else echo "$c DETECTED rc=$rc"; echo "$out" | grep -v '^VIOLATION\|^\[\|^KNOWN-FINDING' | head -${LINES_SHOWN:-4}; fi
 done
